@@ -12,6 +12,14 @@ CLAIMED = {
         note="floats idealised as reals (float-level behaviour only in the bounded layer); numpy divmod/% contracts assumed; "
              "pyvc VC generator trusted (cross-checked against CPython every run)",
         ref="3/C04"),
+    "C05": dict(
+        text="Proof: for every data length and parameter count, the value returned by the real _log_likelihood code equals the "
+             "sum of the named log-densities written in the contract, the gradient equals both the chain-rule formula and "
+             "the symbolic derivative of the returned value term, and cost/cost_gradient are exact negatives. "
+             "Bounded run-time evaluation of the same contracts stands in for float behaviour.",
+        note="log/exp uninterpreted with the axiom instances listed in the evidence; reductions via linearity/congruence of "
+             "finite sums; normalisation of the named densities (integrate to one) is a textbook fact, assumed; floats as reals",
+        ref="3/C05"),
 }
 
 PENDING_REASON = "contracts for this property are not built yet in this revision (see DESIGN.md section 7); not claimed"
